@@ -58,7 +58,21 @@ def obligations(tier):
     return obs
 
 
+BLANK_REPRS = {"-1", "nan", "''", "np.float64(nan)", "-1.0", "(nan+nanj)", "nan+nanj", "complex(nan, nan)", "np.complex128(nan+nanj)"}
 RANK = {"Bytes": 3, "fmt": 3, "PaddedString": 2, "RawPaddedString": 2, "AsciiFloat": 1, "AsciiInteger": 1}
+
+
+def _blank_like(new, old):
+    """repr of a tree value after blanking vs before: a blank marker, or a complex number whose halves are each NaN or unchanged"""
+    if new in BLANK_REPRS:
+        return True
+    try:
+        a, b = complex(new.strip("()")), complex(old.strip("()"))
+    except ValueError:
+        return False
+    if "j" not in new:
+        return False
+    return (a.real != a.real or a.real == b.real) and (a.imag != a.imag or a.imag == b.imag)
 
 
 def is_spare(path):
@@ -282,12 +296,18 @@ def ob_e2e(tier):
             bad.append({"family": "image." + level, "what": f"garbage in spare areas raised {type(e).__name__}: {str(e)[:150]}"})
     # blank nullable fields: leaders whose numeric/text fields are blank - all of them, every even one, every odd one (neighbouring
     # fields, e.g. the two halves of a complex number, then differ) - structure-driving fields, codes and date-times kept
-    for pattern in ("all", "even", "odd"):
+    for pattern, designator in [(p_, d_) for d_ in ("UTM-PROJECTION", "UPS-PROJECTION", "LCC-PROJECTION", "MER-PROJECTION") for p_ in ("all", "even", "odd")]:
       runs += 1
       try:
         raw, expected = W.write("sar_leader")
-        blank = bytearray(raw)
         params = W.PARAMS["sar_leader"]
+        # the projection sections that reach the tree depend on the designator (a required code column): every listed value is probed
+        raw = bytearray(raw)
+        for pth, off, w, kind in W.expand(spec["sar_leader"], params):
+            if pth[-1] == "map_projection_designator":
+                raw[off:off + w] = designator.ljust(w).encode()
+        raw = bytes(raw)
+        blank = bytearray(raw)
         driving = set(spec["sar_leader"]["params"])
         keep_names = set(W.TEXTS) | set(W.SMALL)
         blanked = []
@@ -318,18 +338,25 @@ def ob_e2e(tier):
             if not okv:
                 wrong.append({"field": ".".join(pth), "value": repr(v)})
         if wrong:
-            bad.append({"family": "leader", "what": f"blank field did not surface as -1 / NaN / '' (pattern {pattern})", "first": wrong[:3]})
+            bad.append({"family": "leader", "what": f"blank field did not surface as -1 / NaN / '' (pattern {pattern}, {designator})", "first": wrong[:3]})
         # the transformers accept the blanked document and build the SAME tree shape: every location (group, variable element, attribute)
         # of the filled leader exists - a blank is a value (-1 / NaN / ''), it never removes an element or adds one
-        locs_blank = [k for k, _ in _probe_tree("leader", bytes(blank))]
-        locs_full = [k for k, _ in _probe_tree("leader", bytes(raw))]
+        tree_blank = _probe_tree("leader", bytes(blank))
+        tree_full = _probe_tree("leader", bytes(raw))
+        locs_blank = [k for k, _ in tree_blank]
+        locs_full = [k for k, _ in tree_full]
+        # a location whose value differs from the filled leader's shows a blank marker - never another field's value or a derived text
+        full = {str(k): v for k, v in tree_full}
+        fabricated = [(str(k), v) for k, v in tree_blank if str(k) in full and v != full[str(k)] and not _blank_like(v, full[str(k)])]
+        if fabricated:
+            bad.append({"family": "leader", "what": f"a blanked field surfaces as something else than -1 / NaN / '' (pattern {pattern}, {designator})", "first": fabricated[:3]})
         if sorted(map(str, locs_blank)) != sorted(map(str, locs_full)):
             missing = [k for k in locs_full if k not in set(locs_blank)][:3]
             extra = [k for k in locs_blank if k not in set(locs_full)][:3]
-            bad.append({"family": "leader", "what": f"blank fields (pattern {pattern}) change the shape of the tree", "missing": missing, "extra": extra,
+            bad.append({"family": "leader", "what": f"blank fields (pattern {pattern}, {designator}) change the shape of the tree", "missing": missing, "extra": extra,
                         "locations": (len(locs_full), len(locs_blank))})
       except Exception as e:  # noqa: BLE001
-        bad.append({"family": "leader", "what": f"leader with blank fields (pattern {pattern}) raised {type(e).__name__}: {str(e)[:150]}"})
+        bad.append({"family": "leader", "what": f"leader with blank fields (pattern {pattern}, {designator}) raised {type(e).__name__}: {str(e)[:150]}"})
     res = {"verdict": "violated" if bad else "discharged", "queries": runs, "replays": runs}
     if bad:
         res["cex"] = bad[:4]
